@@ -21,7 +21,8 @@ class CaseTimeout(BaseException):
     the code under test cannot swallow it"""
 
 
-CASE_LIMIT_S = int(os.environ.get('VERIF_CASE_LIMIT_S', '600'))   # per case; the slowest legitimate case takes seconds
+CASE_LIMIT_S = int(os.environ.get('VERIF_CASE_LIMIT_S', '600'))
+_timeouts = [0]   # per case; the slowest legitimate case takes seconds
 
 
 def with_watchdog(fn, *args):
@@ -32,9 +33,14 @@ def with_watchdog(fn, *args):
     def on_alarm(signum, frame):
         raise CaseTimeout()
     old = signal.signal(signal.SIGALRM, on_alarm)
-    signal.setitimer(signal.ITIMER_REAL, CASE_LIMIT_S)
+    # once one case has run into the limit the verdict is settled; the remaining cases get a short limit so that a
+    # change that hangs on many inputs does not make the check run for hours
+    signal.setitimer(signal.ITIMER_REAL, CASE_LIMIT_S if not _timeouts[0] else min(CASE_LIMIT_S, 30))
     try:
         return fn(*args)
+    except CaseTimeout:
+        _timeouts[0] += 1
+        raise
     finally:
         signal.setitimer(signal.ITIMER_REAL, 0)
         signal.signal(signal.SIGALRM, old)
